@@ -188,6 +188,9 @@ class KeyedList(Generic[ItemType, KeyType], MutableSequence, KeyedBase):  # pyli
         self._list.insert(index, item)
         self._dict[key] = item
 
+    def reverse(self):
+        self._list.reverse()
+
     def __contains__(self, value):
         try:
             if value in self._dict:
